@@ -291,6 +291,7 @@ def _component_replay(path):
 def run(chk):
     _component_run(chk)
     from harness import syscheck
+    core.extra_props_phase(chk, "C04_system")
     syscheck.system_phase(chk, "C04", {'plain': 8, 'sbatchfail': 1, 'local': 1}, n_quick=120, n_thorough=2500, also=())
 
 
